@@ -50,7 +50,9 @@ def worker(unit, emit):
     if not corp:
         emit.count('modules_without_corpus')
         corp = ['0']
-    bases = lib.pick_bases(name, mod, corp, p['bases'], rnd)
+    bases = lib.pick_bases(name, mod, corp, p['bases'], rnd, corpus_items=lib.corpus(name, mod))
+    if bases and bases[0].isascii():
+        bases = bases + [x for x in lib.literal_bases(mod, (mod.compact(bases[0]) if hasattr(mod, 'compact') else bases[0])) if x not in bases]
     emit.count('modules')
     emit.count('bases', len(bases))
 
@@ -70,7 +72,7 @@ def worker(unit, emit):
         rec(base, 'base')
         # depth-1 scripts: every position
         for script in scripts1:
-            hostile = script[0]['ch'] in inputs.HOSTILE or script[0]['op'] in ('del', 'trunc', 'case')
+            hostile = script[0]['ch'] in inputs.HOSTILE or script[0]['ch'] in ('NO_SUPER', 'NO_CIRCLED') or script[0]['op'] in ('del', 'trunc', 'case')   # never thinned (str.isdigit() takes superscripts and circled digits for digits, int() does not)
             for s, d in inputs.concretise(base, script, rnd, k=p['k']):
                 if not hostile and p['thin'] and rnd.random() > p['thin']:
                     continue
